@@ -29,7 +29,7 @@ func init() {
 		Level: "fault_enumeration",
 		Rule: "wiring: tier1 with the REAL work.RemoteWorker -> real gRPC client -> in-memory listener (bufconn) -> real grpc.Server -> real Tier2Service.ProcessRange (real error mapping, overload handling, retry classification). " +
 			"case = one generated (package, production/development request with >=2 tier2 jobs); fault-free run gives the job list J. Transient part: EVERY single placement (job x first attempt x kind in {refuse before the call, drop after k=0/1 received messages with and without cancelling the server side (zombie job), completion lost after the job wrote its files}) is run, plus PRNG pairs and triples of faults (also on retries of the same job) and one run against a tier2 limited to 1 concurrent request with 3 workers (real overload path); each must complete with outputs == sequential reference and a clean cache audit. " +
-			"Deterministic part: one module is made to fail at block b for b in the request range (quick: 3 values, thorough: every b), both modes: the request must end with an error that the real tier1 mapping turns into InvalidArgument, every delivered block is a correct prefix strictly below b, nothing is delivered after the error. " +
+			"Deterministic part: one module is made to fail at block b for b in the request range (quick: 3 values, thorough: every b), both modes, for half of them after a transient fault on the first attempt of the failing segment's jobs: the request must end with an error that the real tier1 mapping turns into InvalidArgument, every delivered block is a correct prefix strictly below b, nothing is delivered after the error. " +
 			"non-trivial = transient scenario in which at least one injected fault actually triggered and the job was retried; deterministic scenario in which the failure surfaced; distinct by (package, request, fault list)",
 		Assumptions: []string{
 			"the retry back-off of the remote worker (>= 1 s per retry, external library) is real time: scenarios of one case run concurrently in one process",
@@ -361,6 +361,14 @@ func c16Deterministic(s *scen, req sim.RequestSpec, out, failing string, b uint6
 	rq.Modules = twin.Modules
 	rq.Prod = prod
 	rq.Remote = rt
+	if b%2 == 0 { // a transient fault first: the deterministic failure then surfaces on a RETRY of the job
+		var fl []sim.Fault
+		for st := uint32(0); st < 6; st++ {
+			fl = append(fl, sim.Fault{Stage: st, Segment: b / s.seg, Attempt: 1, Kind: "refuse"})
+		}
+		rt.SetFaults(fl)
+		o.label += " (after a transient fault on the first attempt of the segment's jobs)"
+	}
 	res := cl.Run(rq)
 	if res.Stuck {
 		o.findings = append(o.findings, sim.Finding{Sig: "request-stuck", What: "request with a deterministically failing module never ended"})
